@@ -13,7 +13,7 @@
 import glob, json, os, re, shutil, subprocess, sys, time
 
 ROOT = os.path.dirname(os.path.dirname(os.path.abspath(__file__)))
-WT = '/tmp/vs_wt'
+WT = os.environ.get('VS_WT', '/tmp/vs_wt')   # a second verification lane uses VS_WT=/tmp/vs_wt2
 
 
 def sh(cmd, **kw):
@@ -77,7 +77,7 @@ def build_and_test(run_tests=True):
 
 
 def run_demo(src_dir, agent_wt):
-    work = '/tmp/vs_demo'
+    work = WT + '_demo'
     shutil.rmtree(work, ignore_errors=True)
     shutil.copytree(src_dir, work)
     run = open(os.path.join(work, 'RUN.txt')).read().strip().splitlines()
